@@ -146,10 +146,55 @@ def jobs(tier):
     return J
 
 
+class _FlipLean:
+    """Sensitivity self-test helper: forwards to the real driver but flips one bit of one answer."""
+
+    def __init__(self, lean, which, bit):
+        self.lean, self.which, self.bit, self.count = lean, which, bit, 0
+
+    def open(self, spec):
+        self.lean.open(spec)
+
+    def close_session(self):
+        self.lean.close_session()
+
+    def step_batch(self, reqs):
+        res = self.lean.step_batch(reqs)
+        out = []
+        for sid, outs in res:
+            if self.count == self.which:
+                outs = list(outs)
+                outs[self.bit] ^= 1
+            self.count += 1
+            out.append((sid, outs))
+        return out
+
+
+def sensitivity(ctx):
+    """The comparison must notice a perturbed model answer, and the watchdog a bound that is one too small."""
+    from runner import Coverage
+    from streamlib import StreamInst
+    from litex.soc.interconnect import stream
+    bad = []
+    T2 = [(0, 0, 1), (1, 1, 0)]
+    for which, bit in ((7, 0), (23, 1)):
+        inst = C04Inst(StreamInst("selftest", stream.PipeValid([("data", 1)]), "pipevalid", tokens=T2), 1, 2)
+        d = c04lib.coexplore(inst, _FlipLean(ctx.lean, which, bit), Coverage(), max_states=1000)
+        if not any(x.kind == "correspondence" for x in d):
+            bad.append("perturbed model answer %d/bit %d not noticed" % (which, bit))
+    inst = C04Inst(StreamInst("selftest", stream.PipeValid([("data", 1)]), "pipevalid", tokens=T2), 1, 1)
+    d = c04lib.coexplore(inst, ctx.lean, Coverage(), max_states=1000)
+    if not any(x.kind.startswith("progress-bound") for x in d):
+        bad.append("a delivery bound that is one too small was not noticed")
+    return bad
+
+
 def correspond(ctx):
-    bad = c04lib.selftest()
+    bad = c04lib.selftest() + sensitivity(ctx)
     if bad:
-        raise RuntimeError("monitor self-test failed: %r" % bad)
+        raise RuntimeError("self-test failed: %r" % bad)
+    ctx.cov.notes.append("self-tests passed: monitors on synthetic traces; 2 perturbed model answers noticed; "
+                         "too-small delivery bound noticed")
     ctx.jobs = jobs(ctx.tier)
     ctx.rule = ("model/implementation correspondence transitions (port level, as C03) over (state, obligation, "
                 "letter); non-trivial = a sink or source handshake happened; additionally `stability_checks` = "
@@ -161,10 +206,11 @@ def correspond(ctx):
 
 def search(ctx, disagreements, proof_info):
     """Failing-input search with the model-independent monitors."""
-    for d in disagreements:
-        if getattr(d, "kind", "").startswith("monitor:"):
-            return {"instance": d.inst_name, "trace": [list(l) for l in d.trace], "monitor": d.kind[8:],
-                    "letter_format": FMT}
+    mons = [d for d in disagreements if getattr(d, "kind", "").startswith("monitor:")]
+    if mons:
+        d = min(mons, key=lambda d: len(d.trace))      # the shortest failing input seen during correspondence
+        return {"instance": d.inst_name, "trace": [list(l) for l in d.trace], "monitor": d.kind[8:],
+                "letter_format": FMT}
     deadline = time.time() + (60 if ctx.tier == "quick" else 600)
     all_jobs = getattr(ctx, "jobs", None) or jobs(ctx.tier)
     bad = [d.job for d in disagreements if getattr(d, "job", None) is not None]
